@@ -51,6 +51,15 @@ def install():
                    visibility=[bool(x) for x in results.visibility], metrics=hexes(results.metric_matrix))
 
     wrap_method(TaskingRewardRegistration, "processResults", before=before_reward)
+    from resonaate.estimation.kalman.unscented_kalman_filter import UnscentedKalmanFilter
+
+    def after_update(self, tok, res, observations, *a, **k):
+        if observations:
+            probes.rec("ukf_update_order", target=int(self.target_id), order=[(int(o.sensor_id), int(o.target_id)) for o in observations],
+                       cond=float(np.linalg.cond(self.innov_cvr)), dx=np.abs(np.array(self.est_x, dtype=float) - np.array(self.pred_x, dtype=float)),
+                       dp=float(np.max(np.abs(np.array(self.pred_p) - np.array(self.est_p)))))
+
+    wrap_method(UnscentedKalmanFilter, "update", after=after_update, tag="sched-order")
 
 
 def observe(case: dict) -> dict:
@@ -76,6 +85,8 @@ def observe(case: dict) -> dict:
                 s2["complete"] = True
             elif r["kind"] == "task_result":
                 st["jobs"].append({"engine": r["engine"], "target": r["target"], "obs": r["obs"], "missed": r["missed"], "sensor_info": r["sensor_info"]})
+            elif r["kind"] == "ukf_update_order":
+                st.setdefault("updates", {})[r["target"]] = r      # a retried job repeats the update on a fresh copy: keep the last
             elif r["kind"] == "reward_result":
                 st["reward_jobs"].append((r["engine"], r["estimate"], tuple(r["visibility"]), r["metrics"]))
             elif r["kind"] == "assess_end":
@@ -255,14 +266,38 @@ def compare(base: dict, alt: dict, desc, viol: list, cnt: dict, exact_obs: bool 
                      key=pointing_key(b, diff))
         if b.get("truth") != a.get("truth"):
             return v("truth-order-dependent", f"step {k}: truth states differ")
+        reordered_update = False
         for tid, (bx, bp) in b.get("estimates", {}).items():
             if tid not in a.get("estimates", {}):
                 return v("estimate-missing", f"step {k} estimate {tid}")
             ax, ap = a["estimates"][tid]
             if not exact_obs:
                 continue
+            bu, au = b.get("updates", {}).get(tid), a.get("updates", {}).get(tid)
+            if bu is not None and au is not None and bu["order"] != au["order"] and sorted(bu["order"]) == sorted(au["order"]):
+                # the same observations reached the filter stacked in another order (completion order of the jobs that made them):
+                # the posterior may differ by the rounding that inverting the innovation covariance amplifies (C16), not by more
+                cnt["updates_with_reordered_observations"] = cnt.get("updates_with_reordered_observations", 0) + 1
+                if np.array_equal(bx, ax) and np.array_equal(bp, ap):
+                    continue
+                amp = 100 * 2.3e-16 * max(bu["cond"], au["cond"])
+                if amp >= 1e-3:
+                    cnt["reordered_update_too_ill_conditioned_to_judge"] = cnt.get("reordered_update_too_ill_conditioned_to_judge", 0) + 1
+                    reordered_update = True
+                    continue
+                tol_x = 1e-9 * np.maximum(np.abs(bx), 1.0) + amp * np.maximum(bu["dx"], au["dx"])
+                tol_p = 1e-9 * float(np.max(np.abs(bp))) + amp * max(bu["dp"], au["dp"])
+                if bool(np.any(~(np.abs(bx - ax) <= tol_x))) or not float(np.max(np.abs(bp - ap))) <= tol_p:
+                    return v("estimate-order-dependent", f"step {k} estimate {tid}: same {len(bu['order'])} observations stacked in another order: state differs by {float(np.max(np.abs(bx - ax))):.3e}, "
+                                                         f"covariance by {float(np.max(np.abs(bp - ap))):.3e} (allowance {float(np.max(tol_x)):.1e} / {tol_p:.1e}, cond(S) {max(bu['cond'], au['cond']):.1e})", key="beyond-rounding")
+                reordered_update = True
+                continue
             if not close(bx, ax) or not np.allclose(bp, ap, rtol=1e-7, atol=1e-18):
                 return v("estimate-order-dependent", f"step {k} estimate {tid}: state differs by {float(np.max(np.abs(bx - ax))):.3e}, covariance by {float(np.max(np.abs(bp - ap))):.3e}")
+        if reordered_update:
+            # from here on the two runs differ by (amplifiable) rounding in an estimate: later steps are not comparable bit for bit
+            cnt["comparison_stopped_after_reordered_update"] = cnt.get("comparison_stopped_after_reordered_update", 0) + 1
+            return "indeterminate"
     if exact_obs and not base["error"]:
         for name in ("observations", "missed_observations", "truth", "detected_maneuvers"):
             if sorted(map(repr, base["db"].get(name, []))) != sorted(map(repr, alt["db"].get(name, []))):
